@@ -1,6 +1,6 @@
 (* C19: property theorems (statements in full; proofs in Proofs*.v). *)
 From Coq Require Import List NArith ZArith Bool.
-From C19 Require Import Gen Model Spec ProofsPtr ProofsPatch ProofsPatchExact ProofsParse ProofsNum ProofsEq RTNum ProofsDouble RTStr RTDefs RTMain RTFinal RTDouble ProofsHandler ProofsHandlerObj ProofsPatchDoc.
+From C19 Require Import Gen Model Spec ProofsPtr ProofsPatch ProofsPatchExact ProofsParse ProofsNum ProofsEq RTNum ProofsDouble RTStr RTDefs RTMain RTFinal RTDouble ProofsHandler ProofsHandlerObj ProofsPatchDoc ProofsKinds.
 Import ListNotations.
 Local Open Scope N_scope.
 
@@ -209,6 +209,36 @@ Example c19_double_huge_exponent :
   POk (JDbl false 25 0 0 (-2045911175)%Z) [].     (* 25e123456789012345: exponent mod 2^32 as int32 *)
 Proof. vm_compute. reflexivity. Qed.
 
+(* The node kind ParseNumber gives to an integer text (the decimal text of z, in any context a value
+   can be followed by), exactly, at every 32/64-bit boundary:
+     0 .. 2^32-1          JsonUInt   (a non-negative integer is never a JsonInt)
+     2^32 .. 2^64-1       JsonUInt64
+     -2^31 .. -1          JsonInt
+     -2^63 .. -2^31-1     JsonInt64  (a negative integer is never unsigned)
+   Outside [-2^63, 2^64) the lexer's 64-bit arithmetic wraps (Examples below). *)
+Theorem c19_integer_kinds :
+  forall (z : Z) (rest : list N), follow rest ->
+    (0 <= z <= 4294967295 -> parse_number (dec_Z z ++ rest) = POk (JUInt (Z.to_N z)) rest)%Z /\
+    (4294967296 <= z < 18446744073709551616 ->
+       parse_number (dec_Z z ++ rest) = POk (JUInt64 (Z.to_N z)) rest)%Z /\
+    (-2147483648 <= z < 0 -> parse_number (dec_Z z ++ rest) = POk (JInt z) rest)%Z /\
+    (-9223372036854775808 <= z < -2147483648 -> parse_number (dec_Z z ++ rest) = POk (JInt64 z) rest)%Z.
+Proof. exact integer_kinds. Qed.
+Print Assumptions c19_integer_kinds.
+Example c19_integer_kind_boundaries :
+  parse_text (dec_Z 2147483647) = POk (JUInt 2147483647) [] /\
+  parse_text (dec_Z 4294967295) = POk (JUInt 4294967295) [] /\
+  parse_text (dec_Z 4294967296) = POk (JUInt64 4294967296) [] /\
+  parse_text (dec_Z 18446744073709551615) = POk (JUInt64 18446744073709551615) [] /\
+  parse_text (dec_Z (-2147483648)) = POk (JInt (-2147483648)) [] /\
+  parse_text (dec_Z (-2147483649)) = POk (JInt64 (-2147483649)) [] /\
+  parse_text (dec_Z (-4294967295)) = POk (JInt64 (-4294967295)) [] /\
+  parse_text (dec_Z (-9223372036854775808)) = POk (JInt64 (-9223372036854775808)) [] /\
+  parse_text [45; 48] = POk (JInt 0) [] /\                                   (* "-0" *)
+  parse_text (dec_Z 18446744073709551616) = POk (JUInt 0) [] /\             (* 2^64 wraps to 0 *)
+  parse_text (dec_Z (-9223372036854775809)) = POk (JInt64 9223372036854775807) [].   (* wraps *)
+Proof. vm_compute. repeat split. Qed.
+
 (* Numbers at text level, doubles included, without any floating point: whatever ParseNumber makes
    of ANY text it accepts - an integer node, or a JsonDouble keeping sign / integer part / leading
    fractional zeros / fraction / int32 exponent exactly as DoubleRepresentation stores them - is
@@ -326,6 +356,22 @@ Theorem c19_patchdoc_accept_only_wellformed :
                        Forall2 elem_wellformed elems ops.
 Proof. exact patchdoc_accept_inv. Qed.
 Print Assumptions c19_patchdoc_accept_only_wellformed.
+
+(* The operations of a patch document are parsed independently (m_op, m_path, m_from, m_value are
+   reset for every element): a document is accepted with the list ops iff every element, taken as a
+   one-element document on its own, is accepted with the corresponding single operation - no member
+   of one operation object (e.g. a "value") can influence another. *)
+Theorem c19_patchdoc_ops_independent :
+  forall (elems : list jv) (ops : list pop),
+    patch_of_tree (JArr elems) = PPOk ops <->
+    Forall2 (fun e o => patch_of_tree (JArr [e]) = PPOk [o]) elems ops.
+Proof. exact patchdoc_ops_independent. Qed.
+Print Assumptions c19_patchdoc_ops_independent.
+Example c19_patchdoc_no_value_leak :
+  (* [{"op":"test","path":"/a","value":1}, {"op":"add","path":"/b"}]: the add has no value of its own *)
+  patch_of_tree (JArr [JObj [(K_OP, JStr S_TEST); (K_PATH, JStr [47;97]); (K_VALUE, JUInt 1)];
+                       JObj [(K_OP, JStr S_ADD); (K_PATH, JStr [47;98])]]) = PPBad 4.
+Proof. reflexivity. Qed.
 
 (* Parsing a patch text is total, and applying a patch given as text is atomic: if the text is
    rejected, or any operation fails, the target document is unchanged; if it is accepted the result
